@@ -8,6 +8,20 @@ use serde_json::json;
 use std::cell::Cell;
 use text2num::find_numbers_iter;
 
+/// A token source that announces an enormous upper bound (an open-ended stream cut by `take_while`).
+struct HugeHint<'a> {
+    it: std::slice::Iter<'a, HTok>,
+}
+impl<'a> Iterator for HugeHint<'a> {
+    type Item = &'a HTok;
+    fn next(&mut self) -> Option<&'a HTok> {
+        self.it.next()
+    }
+    fn size_hint(&self) -> (usize, Option<usize>) {
+        (0, Some(usize::MAX))
+    }
+}
+
 struct Counting<'a> {
     it: std::slice::Iter<'a, HTok>,
     n: &'a Cell<usize>,
@@ -125,6 +139,19 @@ fn one_stream(ctx: &Ctx, acc: &mut Acc, l: L, lang: &text2num::Language, syms: &
                 if *pulled > bound {
                     rep(acc, thr, "look-ahead never goes beyond the second number after the one returned", format!("<= {bound} tokens pulled when {} is returned", o.show()), format!("{pulled} tokens pulled"));
                 }
+            }
+        }
+        // (2a) the lazy iterator driven by a standard adaptor (collect asks for size hints) over a source that
+        // announces an enormous upper bound: same occurrences, no panic
+        if toks.len() <= 3 {
+            acc.traces += 1;
+            match guard(|| find_numbers_iter(HugeHint { it: toks.iter() }, lang, thr).collect::<Vec<_>>().iter().map(Occ::of).collect::<Vec<_>>()) {
+                Ok(got) => {
+                    if got != batch {
+                        rep(acc, thr, "the lazy iterator collected through std adaptors yields the occurrences of the batch search", stream::show_occs(&batch), stream::show_occs(&got));
+                    }
+                }
+                Err(p) => rep(acc, thr, "the lazy iterator can be collected (size hints asked) over a source with a huge announced length", "a list".into(), p),
             }
         }
         // (2b) the same stream delivered with timings instead of flags gives the same occurrences
